@@ -144,6 +144,12 @@ def _counter_of(ctx, site, public, what):
     for l in site.guard:
         if l.pos and isinstance(l.e, E) and q.const_eq(l.e) and len(l.e.sigs()) == 1 and not (l.e.sigs() & public):
             lits.append(l.e)
+    if not lits:
+        # `counter == 0` of a ONE-BIT counter is the flag ~counter (threshold 1 written as `count == N - 1`)
+        z = [l.e for l in site.guard if not l.pos and isinstance(l.e, E) and l.e.op == 'sig' and l.e.w == 1 and
+             not (l.e.sigs() & public) and not l.e.canon().startswith('self.')]
+        if len(z) == 1:
+            return z[0], z[0].canon(), 1, False
     ctx.need(len(lits) == 1, 'one comparison of a counter with a constant guarding %s' % what)
     e = lits[0]
     cnt = sorted(e.sigs())[0]
@@ -155,7 +161,7 @@ def _counter_of(ctx, site, public, what):
         per = k + 1
     else:
         ctx.need(False, 'shape of the completion comparison: %s' % e.canon())
-    return e, cnt, per
+    return e, cnt, per, True
 
 
 def _winner(items, asg):
@@ -252,7 +258,7 @@ def check_detector(ctx, tag, kw, set_data, first_ctrl, threshold, config, wait_r
     det = q.raises(ir, 'self.detected')
     ctx.need(len(det) == 1 and q.state_of(det[0]) is not None, 'the single site raising detected, inside an FSM state')
     final = q.state_of(det[0])
-    cmp_e, cnt, per = _counter_of(ctx, det[0], {PAY, CTRL, VALID}, 'detected')
+    cmp_e, cnt, per, cmp_pos = _counter_of(ctx, det[0], {PAY, CTRL, VALID}, 'detected')
     cmp_atom = cmp_e.canon()
     if threshold is None:
         threshold = per
@@ -379,7 +385,7 @@ def check_detector(ctx, tag, kw, set_data, first_ctrl, threshold, config, wait_r
     bad = None
     for asg in q.all_assignments(leaves):
         wc, wd = _winner(fd, asg), _winner(dd, asg)
-        if asg[cmp_atom]:
+        if asg[cmp_atom] == cmp_pos:
             ok = wc is not None and q.is_zero(wc.rhs) and wd is not None and q.is_one(wd.rhs)
         else:
             ok = wc is not None and q.rhs_canon(wc) == '1 + ' + cnt and (wd is None or q.is_zero(wd.rhs))
@@ -427,7 +433,7 @@ def check_emitter(ctx, tag, kw, set_data, first_ctrl, total, config):
     done = q.raises(ir, 'self.done')
     ctx.need(len(done) == 1 and q.state_of(done[0]) is not None, 'the single site raising done, inside an FSM state')
     last = q.state_of(done[0])
-    cmp_e, cnt, per = _counter_of(ctx, done[0], {READY, START}, 'done')
+    cmp_e, cnt, per, cmp_pos = _counter_of(ctx, done[0], {READY, START}, 'done')
     cmp_atom = cmp_e.canon()
     ctx.ob('C43.emit-burst-length', '%s.done.compare[%s]' % (C, tag), per == total, done[0].loc,
            'the burst ends after %d sets, configured transmit_burst_length is %d (%s)' % (per, total, cmp_atom))
@@ -489,13 +495,13 @@ def check_emitter(ctx, tag, kw, set_data, first_ctrl, total, config):
     oh = _outs(fsm, last, {READY: False})
     ctx.ob('C43.emit-handshake', '%s.hold[%s]' % (L, tag), oh == {None}, loc,
            'the last word must be held until source.ready: outcomes without ready %s' % _names(oh))
-    oc = _outs(fsm, last, {READY: True, cmp_atom: False})
+    oc = _outs(fsm, last, {READY: True, cmp_atom: not cmp_pos})
     ctx.ob('C43.emit-burst', '%s.continue[%s]' % (L, tag), oc == {w0}, loc,
            'before the burst is complete the next set must follow immediately: outcomes %s' % _names(oc))
-    os_ = _outs(fsm, last, {READY: True, cmp_atom: True, START: False})
+    os_ = _outs(fsm, last, {READY: True, cmp_atom: cmp_pos, START: False})
     ctx.ob('C43.emit-burst', '%s.stop[%s]' % (L, tag), os_ == {idle}, loc,
            'after the last set of the burst, without start, the emitter must become idle (exactly N sets): outcomes %s' % _names(os_))
-    og = _outs(fsm, last, {READY: True, cmp_atom: True, START: True})
+    og = _outs(fsm, last, {READY: True, cmp_atom: cmp_pos, START: True})
     ctx.ob('C43.emit-burst', '%s.restart[%s]' % (L, tag), og <= {idle, w0}, loc,
            'after the last set of the burst, with start, a new burst starts from word 0: outcomes %s' % _names(og))
     cdrv = ir.drivers(cnt, exact=True)
@@ -508,7 +514,7 @@ def check_emitter(ctx, tag, kw, set_data, first_ctrl, total, config):
         quiet = wd is None or q.is_zero(wd.rhs)
         if not asg[READY]:
             ok = wc is None and quiet
-        elif asg[cmp_atom]:
+        elif asg[cmp_atom] == cmp_pos:
             ok = wc is not None and q.is_zero(wc.rhs) and wd is not None and q.is_one(wd.rhs)
         else:
             ok = wc is not None and q.rhs_canon(wc) == '1 + ' + cnt and quiet
@@ -546,6 +552,11 @@ def check_transceiver(ctx, wait_results):
     T = 'TSTransceiver'
     ir = ctx.ir(T, MOD)
     subs = {s.name: s for s in ir.submodules}
+    for s_ in ir.submodules:                         # a submodule kept in a table is referred to by where it was created
+        subs.setdefault(getattr(s_.obj, 'path', None), s_)
+
+    def pfx(s_):
+        return s_.name if any(n.startswith(s_.name + '.') for n in ir.signals) else s_.obj.path
 
     def sub_for(a, suffix, cls):
         if not (isinstance(a.rhs, E) and a.rhs.op == 'sig' and a.rhs.canon().endswith(suffix)):
@@ -576,12 +587,12 @@ def check_transceiver(ctx, wait_results):
                'the %s detector table differs from the specification symbols at word(s) %s: %s vs %s'
                % (tag, diff, ['0x%08x' % x for x in got], ['0x%08x' % x for x in table]))
         for f in ('valid', 'payload', 'ctrl'):
-            _one_driver(ctx, ir, '%s.sink.%s' % (sub.name, f), 'self.sink.' + f, 'C43.trx-wiring',
+            _one_driver(ctx, ir, '%s.sink.%s' % (pfx(sub), f), 'self.sink.' + f, 'C43.trx-wiring',
                         '%s.%s-detector.sink.%s' % (T, tag, f), 'the %s detector must always see the received %s' % (tag, f))
         if cfg:
             for port, out in (('hot_reset', 'self.hot_reset_requested'), ('loopback_requested', 'self.loopback_requested'),
                               ('scrambling_disabled', 'self.no_scrambling_requested')):
-                _one_driver(ctx, ir, out, '%s.%s' % (sub.name, port), 'C43.trx-wiring', '%s.%s' % (T, out[5:]),
+                _one_driver(ctx, ir, out, '%s.%s' % (pfx(sub), port), 'C43.trx-wiring', '%s.%s' % (T, out[5:]),
                             '%s must report the %s flag of the TS2 detector' % (out, port))
         check_detector(ctx, tag, kw, table, fc, thr, cfg, wait_results)
 
@@ -605,19 +616,19 @@ def check_transceiver(ctx, wait_results):
                'the %s generator table differs from the specification symbols at word(s) %s: %s vs %s'
                % (tag, diff, ['0x%08x' % x for x in got], ['0x%08x' % x for x in table]))
         for f in ('valid', 'ctrl'):
-            _one_driver(ctx, ir, 'self.source.' + f, '%s.source.%s' % (sub.name, f), 'C43.trx-wiring',
+            _one_driver(ctx, ir, 'self.source.' + f, '%s.source.%s' % (pfx(sub), f), 'C43.trx-wiring',
                         '%s.%s-generator.source.%s' % (T, tag, f), 'under %s source.%s must come from the %s generator'
                         % (send, f, tag), guard_within=g)
-        _one_driver(ctx, ir, sub.name + '.source.ready', 'self.source.ready', 'C43.trx-wiring',
+        _one_driver(ctx, ir, pfx(sub) + '.source.ready', 'self.source.ready', 'C43.trx-wiring',
                     '%s.%s-generator.source.ready' % (T, tag), 'the %s generator must see source.ready while selected' % tag,
                     guard_within=g)
-        _one_driver(ctx, ir, sub.name + '.start', '1', 'C43.trx-wiring', '%s.%s-generator.start' % (T, tag),
+        _one_driver(ctx, ir, pfx(sub) + '.start', '1', 'C43.trx-wiring', '%s.%s-generator.start' % (T, tag),
                     '%s must start the %s generator' % (send, tag), guard_within=g)
         if cfg:
             for r, _ in REQS:
-                _one_driver(ctx, ir, '%s.%s' % (sub.name, r[5:]), r, 'C43.trx-wiring', '%s.%s-generator.%s' % (T, tag, r[5:]),
+                _one_driver(ctx, ir, '%s.%s' % (pfx(sub), r[5:]), r, 'C43.trx-wiring', '%s.%s-generator.%s' % (T, tag, r[5:]),
                             'the TS2 generator must receive %s' % r, guard_within=g)
-        done_ports.append(sub.name + '.done')
+        done_ports.append(pfx(sub) + '.done')
         check_emitter(ctx, tag, kw, table, fc, total, cfg)
 
     bc = ir.drivers('self.burst_complete', exact=True)
